@@ -20,6 +20,7 @@ import SimpleDnsModel.Generated.Envelope
 import SimpleDnsModel.Model.Match
 import SimpleDnsModel.Model.Pipeline
 import SimpleDnsModel.Model.Owned
+import SimpleDnsModel.Model.Txt
 namespace Dns.TieEnv
 open Dns
 
@@ -469,5 +470,67 @@ theorem question_codes_round :
     QTYPE.ofCode QTYPE.MAILB.toCode = .ok .MAILB ∧ QTYPE.ofCode QTYPE.MAILA.toCode = .ok .MAILA ∧
     QTYPE.ofCode QTYPE.ANY.toCode = .ok .ANY ∧ QCLASS.ofCode QCLASS.ANY.toCode = .ok .ANY := by
   decide
+
+/-! ### 25. the codec of a character-string (`character_string.rs`) -/
+
+def cmpNamed (op : String) (a b : Nat) : Bool :=
+  if op = ">" then a > b else if op = ">=" then a ≥ b else if op = "<" then a < b else a ≤ b
+
+/-- `CharacterString::parse` with its comparisons and offsets as parameters -/
+def CharStr.parseWith (ops : List String) (nums : List Nat) (d : Bytes) (pos : Nat) : Out (Bytes × Nat) :=
+  if cmpNamed (ops.getD 0 "") pos d.length then .err else
+  match idx d pos with
+  | .ok lb =>
+    if cmpNamed (ops.getD 1 "") lb.toNat 255 ∨ cmpNamed (ops.getD 2 "") (lb.toNat + pos + nums.getD 0 0) d.length then .err else
+    match slice d (pos + nums.getD 1 0) (pos + nums.getD 2 0 + lb.toNat) with
+    | .ok s => .ok (s, pos + lb.toNat + nums.getD 3 0)
+    | .err => .err
+    | .panic => .panic
+  | .err => .err
+  | .panic => .panic
+
+/-- **a character-string is read and written as the model reads and writes it**: a length octet
+(at most 255, and the string must end within the data: `length + position + 1 > data.len()` is the
+error), then that many octets from the next position on, the cursor after them; written as the length
+octet and the octets; `len()` one more than the data; built from at most 255 octets (`>=` for `>`
+in either length test, `+ 2`, a slice from `position`: other values, and this fails) -/
+theorem charstr_codec_source (d : Bytes) (pos : Nat) (b : Bytes) :
+    CharStr.parse d pos = CharStr.parseWith (Gen.Env.charStrOps.getD [">=", ">", ">", ">"]) (Gen.Env.charStrNums.getD [1, 1, 1, 1, 1]) d pos ∧
+    CharStr.new b = (if cmpNamed ((Gen.Env.charStrOps.getD [">=", ">", ">", ">"]).getD 3 "") b.length 255 then .err else .ok b) ∧
+    (CharStr.write b).length = b.length + (Gen.Env.charStrNums.getD [1, 1, 1, 1, 1]).getD 4 0 := by
+  have h1 : Gen.Env.charStrOps.getD [">=", ">", ">", ">"] = [">=", ">", ">", ">"] := by decide
+  have h2 : Gen.Env.charStrNums.getD [1, 1, 1, 1, 1] = [1, 1, 1, 1, 1] := by decide
+  rw [h1, h2]
+  refine ⟨?_, ?_, ?_⟩
+  · simp only [CharStr.parse, CharStr.parseWith, cmpNamed, List.getD_cons_zero, List.getD_cons_succ]
+    by_cases h0 : pos ≥ d.length
+    · simp [h0]
+    · simp only [h0]
+      cases hi : idx d pos with
+      | ok lb =>
+        simp only [bind, Out.bind, pure]
+        by_cases hb : lb.toNat > 255 ∨ lb.toNat + pos + 1 > d.length
+        · simp [hb]
+        · simp only [hb]
+          have hb' : lb.toNat ≤ 255 ∧ lb.toNat + pos + 1 ≤ List.length d := by omega
+          cases slice d (pos + 1) (pos + 1 + lb.toNat) <;> simp [bind, Out.bind, pure, hb']
+      | err => simp [bind, Out.bind]
+      | panic => simp [bind, Out.bind]
+  · simp [CharStr.new, cmpNamed]
+  · simp [CharStr.write]
+
+/-! ### 26. the buffer-returning entry points and `parse_section` (`packet.rs`) -/
+
+/-- `build_bytes_vec` and `build_bytes_vec_compressed` hand a fresh, empty buffer to `write_to` /
+`write_compressed_to` and return what was written into it (what `Packet.build` / `buildCompressed` are in
+the model: the writer's output from offset 0, nothing of an earlier call in it); `parse_section` parses
+the announced number of entries one after the other, keeps them in order and gives up at the first
+error (`parseSection` of the model). This theorem reads the source only: these bodies have one recognised
+shape each - a buffer kept between calls, a section parsed until the data runs out - or the item is
+untied -/
+theorem packet_entry_points_source :
+    Gen.Env.packetEntryPoints.all (fun l =>
+      (l.getD 0 "" = "fresh-cursor:write_to" ∨ l.getD 0 "" = "fresh-vec:write_to") ∧
+      l.getD 1 "" = "fresh-cursor:write_compressed_to" ∧ l.getD 2 "" = "count-times-in-order") = true := by decide
 
 end Dns.TieEnv
